@@ -285,6 +285,9 @@ def ufunc_per_section(
     from dtscalibration.dts_accessor_utils import ufunc_per_section_helper
 
     dataarray = None if label is None else ds[label]
+    subtract_from_dataarray = (
+        None if subtract_from_label is None else ds[subtract_from_label]
+    )
 
     if x_indices:
         x_coords = ds.x
@@ -298,7 +301,7 @@ def ufunc_per_section(
         sections=sections,
         func=func,
         dataarray=dataarray,
-        subtract_from_dataarray=subtract_from_label,
+        subtract_from_dataarray=subtract_from_dataarray,
         reference_dataset=reference_dataset,
         subtract_reference_from_dataarray=temp_err,
         ref_temp_broadcasted=ref_temp_broadcasted,
